@@ -24,10 +24,11 @@ type OracleC13 struct {
 	potPaid map[uint64]*big.Int            // root id -> voter rewards claimed
 	bad     map[uint64]bool                // root id -> ledger not reliable (several payments or executions in one block)
 	probed  map[string]int                 // once-only probes already run per (root, address)
+	fromStk map[uint64]int                 // root id -> number of payments made from stake
 }
 
 func NewOracleC13(t *DisputeTracker) *OracleC13 {
-	return &OracleC13{counters: newCounters(), t: t, paid: map[uint64]map[string]*big.Int{}, escrow: map[uint64]*big.Int{}, out: map[uint64]*big.Int{}, potPaid: map[uint64]*big.Int{}, bad: map[uint64]bool{}, probed: map[string]int{}}
+	return &OracleC13{counters: newCounters(), t: t, paid: map[uint64]map[string]*big.Int{}, escrow: map[uint64]*big.Int{}, out: map[uint64]*big.Int{}, potPaid: map[uint64]*big.Int{}, bad: map[uint64]bool{}, probed: map[string]int{}, fromStk: map[uint64]int{}}
 }
 func (o *OracleC13) ID() string { return "C13" }
 
@@ -349,7 +350,9 @@ func (o *OracleC13) AfterBlock(c *Chain, b *BlockCtx) []*Violation {
 		o.count("fully_settled_disputes")
 		o.t.refunded[fmt.Sprintf("settled|%d", id)] = true
 		nClaims := int64(len(o.paid[root]) + 4)
-		if residual.Sign() < 0 || residual.Cmp(big.NewInt(nClaims)) > 0 {
+		// sub-unit remainders of all disputes accumulate in one counter and are burned, a whole unit at a time, inside
+		// whichever claim transaction crosses the unit: up to two units per claim can belong to other disputes
+		if residual.Cmp(big.NewInt(-2*nClaims)) < 0 || residual.Cmp(big.NewInt(nClaims)) > 0 {
 			cls := "residual-after-all-claims"
 			if residual.Sign() < 0 {
 				cls = "paid-out-more-than-paid-in"
@@ -464,31 +467,46 @@ func (o *OracleC13) onceProbes(c *Chain, b *BlockCtx, v *View) []*Violation {
 					}
 				}
 			}
-			// entitlement: a payer record of an executed dispute that did not end against the disputer can be withdrawn
-			if d, ok := o.t.cur[p.ID]; ok && d.V != nil && d.V.Executed && d.D.DisputeStatus == disputetypes.Resolved {
-				switch d.V.VoteResult {
-				case disputetypes.VoteResult_INVALID, disputetypes.VoteResult_NO_QUORUM_MAJORITY_INVALID, disputetypes.VoteResult_SUPPORT, disputetypes.VoteResult_NO_QUORUM_MAJORITY_SUPPORT:
-					fresh, _ := v.ctx.CacheContext()
-					err := probeMsg(fresh, func(x sdk.Context) error {
-						_, e := dms.WithdrawFeeRefund(x, &disputetypes.MsgWithdrawFeeRefund{CallerAddress: p.Payer.String(), PayerAddress: p.Payer.String(), Id: p.ID})
-						return e
-					})
-					o.count("probe_fee_refund_entitlement")
-					if err != nil {
-						cls := "refund-unavailable"
-						if p.Info.FromBond {
-							cls += ":paid-from-stake"
-						}
-						if d.D.DisputeRound > 1 {
-							cls += ":multi-round"
-						}
-						out = append(out, o.v(b.H, "entitlement-probe", cls, "payer %s holds a payer record (%s, from stake: %v) of dispute %d (%s, executed, round %d) but WithdrawFeeRefund fails: %s", p.Payer, p.Info.Amount, p.Info.FromBond, p.ID, d.V.VoteResult, d.D.DisputeRound, truncate(err.Error(), 200)))
-						return out
-					}
-				}
-			}
 			if paidTimes > 1 {
 				out = append(out, o.v(b.H, "once-probe", "refund-claimable-more-than-once", "payer %s of dispute %d (rounds %v) can withdraw its fee refund %d times in a row (%s in total) on the state after block %d", p.Payer, root, ids, paidTimes, total, b.H))
+				return out
+			}
+		}
+	}
+	// ---- entitlement, in sequence: on ONE branch of the state every payer record of an executed dispute that did not
+	// end against the disputer is withdrawn, one payer after the other; each of them must succeed (a payer's claim
+	// must not depend on who claimed before)
+	key := fmt.Sprintf("seq|%d", len(payers))
+	if o.probed[key] < 2 || o.countKind(c, b, "withdraw_fee_refund") > 0 {
+		o.probed[key]++
+		shared, _ := v.ctx.CacheContext()
+		for _, p := range payers {
+			d, ok := o.t.cur[p.ID]
+			if !ok || d.V == nil || !d.V.Executed || d.D.DisputeStatus != disputetypes.Resolved {
+				continue
+			}
+			switch d.V.VoteResult {
+			case disputetypes.VoteResult_INVALID, disputetypes.VoteResult_NO_QUORUM_MAJORITY_INVALID, disputetypes.VoteResult_SUPPORT, disputetypes.VoteResult_NO_QUORUM_MAJORITY_SUPPORT:
+			default:
+				continue
+			}
+			err := probeMsg(shared, func(x sdk.Context) error {
+				_, e := dms.WithdrawFeeRefund(x, &disputetypes.MsgWithdrawFeeRefund{CallerAddress: p.Payer.String(), PayerAddress: p.Payer.String(), Id: p.ID})
+				return e
+			})
+			o.count("probe_fee_refund_entitlement")
+			if p.Info.FromBond {
+				o.count("probe_fee_refund_entitlement_paid_from_stake")
+			}
+			if err != nil {
+				cls := "refund-unavailable"
+				if p.Info.FromBond {
+					cls += ":paid-from-stake"
+				}
+				if d.D.DisputeRound > 1 {
+					cls += ":multi-round"
+				}
+				out = append(out, o.v(b.H, "entitlement-probe", cls, "payer %s holds a payer record (%s, from stake: %v) of dispute %d (%s, executed, round %d) but WithdrawFeeRefund fails: %s", p.Payer, p.Info.Amount, p.Info.FromBond, p.ID, d.V.VoteResult, d.D.DisputeRound, truncate(err.Error(), 200)))
 				return out
 			}
 		}
